@@ -62,6 +62,8 @@ impl Limits {
 	}
 }
 
+pub use crate::capture::IGNORE_CALLBACK_CAP;
+
 #[derive(Clone, Debug, PartialEq)]
 pub struct DecOut {
 	pub res: Result<Val, String>,
@@ -102,7 +104,11 @@ where
 			let r = Capture { ty, ctx: &ctx }.deserialize(d);
 			(r, ctx.callbacks.get(), ctx.max_depth.get())
 		}
-		Target::Ignored => (IgnoreSeed.deserialize(d).map(|_| Val::Null), 0, 0),
+		Target::Ignored => {
+			let c = Cell::new(0);
+			let r = IgnoreSeed { callbacks: &c, cap: IGNORE_CALLBACK_CAP.with(|c| c.get()) }.deserialize(d);
+			(r.map(|_| Val::Null), c.get(), 0)
+		}
 		Target::Blind => {
 			let c = Cell::new(0);
 			let r = Blind { callbacks: &c }.deserialize(d);
